@@ -23,8 +23,9 @@ static priv_t *priv_new(void)
         priv_t *p = aligned_alloc(64, (sizeof *p + 63) & ~(size_t) 63);
         memset(p, 0, sizeof *p);
         for (int ai = 0; ai < 5; ai++) {
-                p->hmgr[ai] = aligned_alloc(64, (halgs[ai].mgr_size + 63) & ~(size_t) 63);
-                for (int k = 0; k < 4; k++) p->hctx[ai][k] = aligned_alloc(64, (halgs[ai].ctx_size + 63) & ~(size_t) 63);
+                /* zeroed: a refused call (FIPS build, non-approved algorithm) leaves its outputs untouched and they are hashed all the same */
+                p->hmgr[ai] = aligned_alloc(64, (halgs[ai].mgr_size + 63) & ~(size_t) 63); memset(p->hmgr[ai], 0, halgs[ai].mgr_size);
+                for (int k = 0; k < 4; k++) { p->hctx[ai][k] = aligned_alloc(64, (halgs[ai].ctx_size + 63) & ~(size_t) 63); memset(p->hctx[ai][k], 0, halgs[ai].ctx_size); }
         }
         return p;
 }
